@@ -464,16 +464,11 @@ impl Sys {
                     let el = &d.ch[0];
                     let exp_ns: Vec<(String, String)> = self.nss.iter().map(|x| (PKEYS[x.key as usize].to_string(), x.val.clone())).collect();
                     // the element is serialised in place: bindings inherited from the parent (p -> X, q -> Y)
-                    // that the element does not redeclare may be written first, in any order
+                    // that the element does not redeclare may be written anywhere among its own declarations, in
+                    // any order (they are not entries of the element's map; the property orders the map's entries)
                     let inherited = [("p".to_string(), X.to_string()), ("q".to_string(), Y.to_string())];
                     let mut got_ns: Vec<(String, String)> = el.nss.iter().map(|n| (n.name.clone(), n.ns.clone())).collect();
-                    while let Some(first) = got_ns.first() {
-                        if inherited.contains(first) && !exp_ns.iter().any(|e| e.0 == first.0) {
-                            got_ns.remove(0);
-                        } else {
-                            break;
-                        }
-                    }
+                    got_ns.retain(|g| !(inherited.contains(g) && !exp_ns.iter().any(|e| e.0 == g.0)));
                     if got_ns != exp_ns {
                         out.push(("to_string|declaration-order".into(), format!("{:?}: declarations {:?}, map order {:?}", text, got_ns, exp_ns)));
                     }
